@@ -135,6 +135,33 @@ func solveAll(obls []*Obligation, timeout time.Duration, workers int, dir string
 	}
 	close(jobs)
 	wg.Wait()
+	// second chance for the few obligations no solver decided in time: the machine may be
+	// shared with other checks (each query is raced on four solver processes), and a
+	// time-out under load must not read as a broken proof. Re-run them two at a time with
+	// three times the budget.
+	var again []*Obligation
+	for _, o := range obls {
+		if !o.Cover && o.Status == "undecided" && !strings.Contains(o.Output, "disagree") {
+			again = append(again, o)
+		}
+	}
+	if len(again) == 0 || len(again) > 8 {
+		return
+	}
+	sem := make(chan struct{}, 2)
+	var wg2 sync.WaitGroup
+	for _, o := range again {
+		wg2.Add(1)
+		sem <- struct{}{}
+		go func(o *Obligation) {
+			defer wg2.Done()
+			defer func() { <-sem }()
+			first := o.Ms
+			solveOne(o, 3*timeout, dir, thorough)
+			o.Ms += first
+		}(o)
+	}
+	wg2.Wait()
 }
 
 func solveOne(o *Obligation, timeout time.Duration, dir string, thorough bool) {
